@@ -5,8 +5,10 @@ mod chunk;
 mod client;
 mod clock;
 mod hs;
+mod interop;
 mod sha;
 mod msg;
+mod pair;
 mod res;
 mod server;
 mod sess;
@@ -80,6 +82,18 @@ fn main() {
         }
         "res-child" => {
             res::child(&argv[2], argv[3].parse().unwrap_or(0));
+        }
+        "interop" => {
+            let shard: u64 = a.rest.get(1).map(|s| s.parse().unwrap()).unwrap_or(0);
+            let nshards: u64 = a.rest.get(2).map(|s| s.parse().unwrap()).unwrap_or(1);
+            let info = interop::generate(&a.tier, a.seed, shard, nshards, &a.out);
+            println!("{}", info);
+        }
+        "pair" => {
+            let shard: u64 = a.rest.get(1).map(|s| s.parse().unwrap()).unwrap_or(0);
+            let nshards: u64 = a.rest.get(2).map(|s| s.parse().unwrap()).unwrap_or(1);
+            let info = pair::generate(&a.tier, a.seed, shard, nshards, &a.out);
+            println!("{}", info);
         }
         x => {
             eprintln!("unknown suite {}", x);
